@@ -1515,6 +1515,23 @@ _ref_cache: dict[str, Signature] = {}
 
 # equivalent ways of writing a definition (same function, element-wise instead of slice-wise, ...): a kernel may equal any
 ALTERNATIVES: dict[str, list[str]] = {
+    # the three successive values of the padded template under names of their own (single assignment form)
+    "convolve_templates": ['''
+def convolve_templates(data, temp_bank, ref_bin):
+    nbins = len(data)
+    ntemps = len(temp_bank)
+    convs = np.empty((ntemps, nbins), dtype=data.dtype)
+    data_fft = np.fft.rfft(data)
+    for itemp in range(ntemps):
+        temp_kernel = temp_bank[itemp]
+        temp_pad = np.zeros_like(data)
+        temp_pad[: len(temp_kernel)] = temp_kernel
+        temp_aligned = np.roll(temp_pad, -ref_bin[itemp])
+        temp_reversed = np.roll(temp_aligned[::-1], 1)
+        temp_norm = normalize_template(temp_reversed)
+        convs[itemp, :] = np.fft.irfft(data_fft * np.fft.rfft(temp_norm), nbins)
+    return convs
+'''],
     # a constant lane has all pairwise distances 0: returning 0.0 for it at once is the same function
     "_scale_qn_1d": ['''
 def _scale_qn_1d(data):
